@@ -130,6 +130,8 @@ func main() {
 		runCase(o, &Case{ACME: &ACMECase{Ops: []string{"renew", "acmerev", "renew", "rekey", "acmerev", "acmerevkey", "mtlsrev"}}})
 		runCase(o, &Case{ACME: &ACMECase{Ops: []string{"rekey", "acmerevkey", "renew", "acmerev"}}})
 		runCase(o, &Case{ACME: &ACMECase{Ops: []string{"mtlsrev", "acmerev", "acmerevkey", "renew"}}})
+		runCase(o, &Case{ACME: &ACMECase{Ops: []string{"renew", "acmerev:a:1", "acmerev:x:1", "acmerev:k:7", "acmerev:o:11", "acmerev:o:-1", "renew", "acmerev:k:-", "rekey", "acmerev:a:1", "acmerev:o:7", "acmerev:x:0"}}})
+		runCase(o, &Case{ACME: &ACMECase{Ops: []string{"acmerev:o:10", "acmerev:k:8", "renew"}}})
 		for i := 0; i < *n; i++ {
 			runCase(o, &Case{ACME: genACME(r.Fork())})
 		}
